@@ -36,8 +36,14 @@ SHRINK = ['ops']
 def gen(seed, tier):
     r = random.Random(seed)
     kind = r.choice(('file', 'file', 'mapping', 'demo:mapping:mapping'))
-    return {'kind': kind, 'ops': CS.gen_program(r, r.randint(4, 30),
-                                                 False, kind),
+    # a third of the programs also take savepoints (rollbacks are C12's):
+    # the outcome of a transaction must reach objects whose changes were
+    # already moved to the temporary store
+    sp = r.random() < 0.35
+    ops = CS.gen_program(r, r.randint(4, 30), sp, kind)
+    if sp:
+        ops = [op for op in ops if op[0] != 'rb' or r.random() < 0.3]
+    return {'kind': kind, 'ops': ops, 'savepoints': sp,
             'cache_size': 400,
             'bufsize': r.choice((64, 8192)), 'tier': tier}
 
@@ -63,7 +69,7 @@ def result(m, case, prefix):
 
 
 def run(case):
-    m = CS.run_program(case, False)
+    m = CS.run_program(case, bool(case.get('savepoints')))
     return result(m, case, 'c11')
 
 
